@@ -48,7 +48,14 @@ func (pub Pubkey) Serialize() []byte {
 	return pub.value.Marshal()
 }
 
+// PUBKEY_LENGTH is the length of a serialized public key (one G2 point: four 32-byte coordinates).
+const PUBKEY_LENGTH = 128
+
+// Deserialize accepts exactly the bytes Serialize writes for a (non-identity) public key.
 func (pub *Pubkey) Deserialize(b []byte) error {
+	if len(b) != PUBKEY_LENGTH {
+		return fmt.Errorf("pubkey Deserialize failed: length %d, want %d", len(b), PUBKEY_LENGTH)
+	}
 	_, error := pub.value.Unmarshal(b)
 	return error
 }
@@ -63,8 +70,7 @@ func (pub *Pubkey) SetHexString(s string) error {
 	}
 	buf := s[len(PREFIX):]
 
-	pub.value.Unmarshal(common.Hex2Bytes(buf))
-	return nil
+	return pub.Deserialize(common.Hex2Bytes(buf))
 }
 
 func (pub Pubkey) IsEmpty() bool {
